@@ -15,6 +15,7 @@ TARGETS = ["IbicusModel.Props.C20"]
 GEN = ["Evaluate"]
 
 GRIDS = [(1, 1), (1, 3), (2, 2), (3, 1)]
+STATS = {"rows_checked_by_position": 0}
 TOL = 1e-9
 
 
@@ -492,6 +493,7 @@ def check_rows(out, expected, cols_scale, what, label, problem):
         problem(what, f"{label}: {len(df)} rows returned, {len(expected)} expected (debiasers x statistics/metrics)", {"relation": "rows_by_position"})
         return
     for n, (key, refs) in enumerate(expected):
+        STATS["rows_checked_by_position"] += 1
         r = df.iloc[n]
         if r["Correction Method"] != key:
             problem(what, f"{label}: row {n} belongs to '{r['Correction Method']}', expected '{key}'", {"relation": "rows_by_position"})
@@ -758,6 +760,7 @@ def run(tier, res, force_search=False):
         "the conditional joint exceedance is reported in percent (the code multiplies chi by 100; docstring says probability)",
         "on grids with more than one location, where some location trips a multiplicative zero guard, the check accepts both a ZeroDivisionError of the whole call and non-finite values at those locations (counted as mixed_guard_accepted); a 1x1 grid must raise",
         "quantile-based denominators that are exactly 0 in the model are accepted as ties (float lerp can differ in the last bit)",
+        "rows of the returned frames are in the order debiaser (keyword order) x statistics x metrics; the positional oracle uses metric lists whose names collide (default names, same name, same object twice)",
     ]
 
     lean_ok = C.lean_phase(res, PROP, GEN, TARGETS)
@@ -816,6 +819,7 @@ def run(tier, res, force_search=False):
         res.tie_broken.append(f"correspondence DrvEvaluate: {len(mismatches)} mismatches, first: {str(mismatches[0])[:500]}")
     res.extra["correspondence_mismatches"] = len(mismatches)
     logging.disable(logging.NOTSET)
+    res.extra["rows_checked_by_position"] = STATS["rows_checked_by_position"]
     res.extra.setdefault("ties_accepted", 0)
     res.extra.setdefault("mixed_guard_accepted", 0)
 
